@@ -70,6 +70,31 @@ SEEDS = {
  "C23-m2": ("C23", "a particular interleaving: query N's timer fires after query N+1 has started (callback stops 'the current query')", ["C23", "C22"]),
  "C24-m1": ("C24", "the timer thread fires while the search polls the stop flag (non-atomic read of the atomic: data race, visible only to a race detector)", ["C24"]),
  "C24-m2": ("C24", "a cut executed in any rule body after a safe refactoring made the goal's node a protected &mut self during the recursive call (aliasing violation, no native symptom)", ["C24"]),
+ # ---- second round (agents were told what the first round had produced) ----
+ "C01-m3": ("C01", "a goal all of whose arguments face `$_`, after earlier bindings in the same proof (functor fast path: the unification returns the empty set, earlier bindings are lost)", ["C01", "C06", "C09"]),
+ "C01-m4": ("C01", "a non-last goal of a conjunction that succeeds more than once without binding anything (duplicate facts, a disjunction of two true tests) and a tail with solutions (tail not rebuilt when the head returns the same Rc)", ["C01"]),
+ "C02-m3": ("C02", "a disjunction in the caller whose non-last alternative is a single call to a predicate whose chosen clause executed a cut (Or reads the head node's flag instead of its own)", ["C02"]),
+ "C02-m4": ("C02", "a parenthesised disjunction to the left of a cut, the goals after the cut fail, the active branch has a further solution (entry test removed from Or nodes)", ["C02"]),
+ "C03-m3": ("C03", "a parsed not(order comparison) whose comparison fails for a non-ordinal reason: unbound operand, atom against number (rewritten into the opposite comparison)", ["C03", "C19"]),
+ "C03-m4": ("C03", "a not(G) that failed, in the last clause tried of a predicate with several clauses, re-asked after exhaustion", ["C03", "C05"]),
+ "C05-m3": ("C05", "a clause whose body runs a cut, a later clause whose head unifies, and a further request after 'no more' (the record of the cut is discarded with the rule body)", ["C05", "C02"]),
+ "C05-m4": ("C05", "time(G) in a conjunction of the last clause tried, which failed, re-asked after exhaustion: the elapsed time is printed again", ["C05"]),
+ "C07-m3": ("C07", "two already aliased variables, the unbound end on the left with the highest id so far (bounds test before the identity test)", ["C07", "C08"]),
+ "C07-m4": ("C07", "an unbound variable on the left facing `$_` as a list element or bare operand (early return for `$_` on the right removed)", ["C07", "C09"]),
+ "C09-m3": ("C09", "an already bound variable whose binding, or the other term, holds a nested `$_` and no variable ('ground' fast path compares with ==)", ["C09", "C06"]),
+ "C09-m4": ("C09", "a `$_` list element aligned exactly with the other list's tail variable", ["C09", "C06", "C07"]),
+ "C10-m3": ("C10", "a conjunction whose head goal is solved through a rule, whose tail fails and whose head is retried at a choice point two levels down (ids restored to the value before the head goal)", ["C10", "C01"]),
+ "C10-m4": ("C10", "a clause whose variables already carry ids (renamed before, or built with logic_var!(id, ..)): returned unchanged by the renamer", ["C10"]),
+ "C12-m3": ("C12", "a whole-valued float literal as an operand of an infix expression with integers (infix re-spelled through Display and re-parsed: 2.0 becomes 2)", ["C12"]),
+ "C12-m4": ("C12", "all-integer divide with a negative dividend or intermediate quotient and a remainder (div_euclid)", ["C12"]),
+ "C04-m3": ("C04", "a head goal that succeeds more than once without binding anything, followed by output goals in a tail that never succeeds (tail not re-run when the head returns the same Rc): printed repetitions are lost, answers unchanged", ["C04"]),
+ "C04-m4": ("C04", "a format string with %s markers that reaches print through a bound variable (only literal first arguments are treated as formats)", ["C04"]),
+ "C06-m3": ("C06", "both lists have a tail at the same position, one of them `$_` (API-built), and an earlier element pair creates a binding: the call returns the substitution it was given", ["C06", "C09"]),
+ "C06-m4": ("C06", "an already aliased pair of variables unified again with the bound one on the left (free 'other' bound directly without walking the chain): cycle", ["C06", "C08"]),
+ "C08-m3": ("C08", "a conjunction whose first goal is solved through rules and whose tail rejects its first two solutions; the third fetches a fact with a nested fresh variable (stale id restored on every iteration)", ["C08", "C10", "C01"]),
+ "C08-m4": ("C08", "inside a complex term, a left variable with an id above every bound variable that is already aliased low-to-high ('fresh variable' fast path bypasses the alias walk)", ["C08", "C06"]),
+ "C11-m3": ("C11", "not(G) on a call that, after dereferencing, holds two distinct unbound variables with the same *name* from different scopes (goal re-renamed by name inside not)", ["C11", "C03"]),
+ "C11-m4": ("C11", "two variables of one clause whose names differ only in a trailing _<digits> suffix, read by the parser (printed form $X_12 accepted as id 12, name $X)", ["C11", "C19", "C20"]),
 }
 
 def sh(cmd, cwd=None, env=None, timeout=None):
